@@ -191,9 +191,14 @@ def o2(ctx, prog, cfg):
             found[f.short] = pr["bulk"]
     for short, sites in sorted(found.items()):
         ent = tables.BULK_MOVERS.get(short)
-        ctx.check(ent is not None, "O2", short, "bulk move x%d" % len(sites), prog.fns[short].loc,
+        ctx.check(ent is not None, "O2", short, "bulk mover", prog.fns[short].loc,
                   "`%s` relocates an unbounded number of elements (%s) and is not one of the reviewed bulk movers"
-                  % (short, ", ".join(sorted({p for _, p in sites}))), "reviewed: %s" % (ent or ""), cfg)
+                  % (short, ", ".join(sorted({p for _, p in sites}))), "reviewed: %s" % (ent[1] if ent else ""), cfg)
+        if ent is not None:
+            ctx.check(len(sites) <= ent[0], "O2", short, "bulk-move sites within the reviewed number", short_loc(prog.fns[short], sites[-1][0]),
+                      "`%s` now has %d bulk-move sites (%s); its linear bound (%s) was reviewed for %d: an additional relocation path "
+                      "can move elements the documented bound does not allow" % (short, len(sites), ", ".join(p.split("::")[-1] for _, p in sites), ent[1], ent[0]),
+                      "%d site(s) <= reviewed %d" % (len(sites), ent[0]), cfg)
     ctx.floor("O2", "bulk movers", len(found), 3, cfg)
     f = ctx.need_fn(prog, "CircularBuffer::make_contiguous", "O2")
     if f is not None:
